@@ -6,6 +6,7 @@ package pointstore
  * node Ids whereas points require a more careful treatment. */
 
 import (
+	"bytes"
 	"errors"
 	"fmt"
 
@@ -116,7 +117,12 @@ func GetPointByNodeId(bucket diskstore.ReadOnlyBucket, nodeId uint64, withData b
 	}
 	var data []byte
 	if withData {
-		data = bucket.Get(conversion.NodeKey(nodeId, 'd'))
+		/* The returned point outlives the read transaction (search results are
+		 * decoded and encoded by the caller after it has ended) but the bytes
+		 * bbolt hands out are only valid while the transaction is open: they
+		 * point into its memory map, which is remapped when a later write makes
+		 * the file grow. So we copy. */
+		data = bytes.Clone(bucket.Get(conversion.NodeKey(nodeId, 'd')))
 	}
 	sp := ShardPoint{
 		Point: models.Point{
